@@ -33,6 +33,7 @@ def drive(run):
 def outer(run):
     """an instrumented caller whose own variable changes while generators it started are suspended (C09: what a path selector
     reports of the caller is the caller's state at the time of each step)"""
+    run(0)              # before stage is assigned for the first time
     stage = 1
     run(1)
     stage = 2
@@ -40,6 +41,12 @@ def outer(run):
     stage = 3
     run(3)
     return stage
+
+
+def top(run):
+    """one more level above outer (call paths of three levels)"""
+    r = outer(run)
+    return r
 
 
 def mk(k):
